@@ -3,7 +3,7 @@
 # usage: tools/selftest_determinism.sh [runs per harness, default 2000]
 cd /verif && ./check --build >/dev/null || exit 2
 n=${1:-2000}; rc=0; tmp=$(mktemp -d)
-for hp in gatt_sim:C06 nq_sim:C12 irq_sim:C13 irq_sim:C30 pdu_sim:C15 ring_sim:C18 sdu_sim:C19 wl_sim:C26 stack_sim:C21 stack_sim:C24 stack_sim:C28 sm_sim:C32 sm_sim:C38 l2cap_sim:C31 csc_sim:C40 bl_sim:C39; do
+for hp in gatt_sim:C06 nq_sim:C12 irq_sim:C13 irq_sim:C30 pdu_sim:C15 ring_sim:C18 sdu_sim:C19 wl_sim:C26 stack_sim:C21 stack_sim:C24 stack_sim:C28 sm_sim:C32 sm_sim:C38 l2cap_sim:C31 csc_sim:C40 bl_sim:C39 nrf_sim:C25 pdu_sim:C23 lat_sim:C23 stack_sim:C27; do
   h=${hp%%:*}; p=${hp##*:}
   build/$h --property $p --tier quick --seed 7 --runs $n --workers 3  --survey --hash-list $tmp/a >/dev/null 2>&1
   build/$h --property $p --tier quick --seed 7 --runs $n --workers 14 --survey --hash-list $tmp/b >/dev/null 2>&1
